@@ -20,7 +20,7 @@ name to the stack, so the fuel cannot run out before the stack check fires. The 
 (unreachable) reports `RecursingFragmentSpread`, so that `checkOp S D = []` never hides an unfinished walk.
 
 This is the code AFTER the `fix:` commits bb13114, 0076043, 20563f6, c5d2b9d, 276cf9e, f60edb6, 647d48b,
-4e8f5ac, ccd11d9, a341d33, and the fragment-definition-directive fix (see design-notes/C03.md): directives are checked at all eight executable locations, fragment
+4e8f5ac, ccd11d9, a341d33, e3584a3 (Int literals are 32-bit values: `Model/IntLit.lean`), and the fragment-definition-directive fix (see design-notes/C03.md): directives are checked at all eight executable locations, fragment
 definitions no operation spreads are walked on their own (`without_variable_checks`), variable defaults are
 checked, the interface-equals-interface fast path no longer skips the selection set, the subscription root
 is counted by response key.
